@@ -326,6 +326,8 @@ func c03Mutants(e *gen.Expr) []c03Mutant {
 			add(replacePath(e, pth+".0", lit(gen.TInt)), "non-boolean-condition")
 		case "builtin":
 			add(replacePath(e, pth+".0", lit(gen.TInt)), "non-collection-builtin-argument "+x.R.Arg)
+			add(replacePath(e, pth+".0", &gen.Expr{R: gen.Var("M", gen.TMap)}), "map-as-builtin-collection "+x.R.Arg)
+			add(replacePath(e, pth+".0", &gen.Expr{R: gen.Var("S", gen.TStr)}), "string-as-builtin-collection "+x.R.Arg)
 			if x.R.In[1].T == gen.TBool {
 				add(replacePath(e, pth+".1", lit(gen.TInt)), "non-boolean-predicate "+x.R.Arg)
 			}
@@ -441,6 +443,8 @@ func c03(r *report.Run) {
 		{"B ? I : F", nil, ""}, {"B ? F : I", nil, ""}, {"B ? U : I", nil, ""}, {"B ? I8 : I", nil, ""}, {"(B ? U : I) == 3", nil, ""}, {"(B ? I8 : I) in [1, 2]", nil, ""},
 		{"B ? nil : F", expr.AsFloat64(), "float64"}, {"B ? I64 : nil", expr.AsInt64(), "int64"}, {"B ? F : nil", expr.AsFloat64(), "float64"}, {"B ? I : F", expr.AsFloat64(), "float64"}, {"B ? I64 : U8", expr.AsInt64(), "int64"},
 		{"P?.N", expr.AsInt64(), "int64"}, {"O?.Next?.N", expr.AsInt64(), "int64"}, {"B ? T1() : F1()", expr.AsBool(), "bool"},
+		{"B ? true : I", expr.AsBool(), "bool"}, {"X", expr.AsBool(), "bool"}, {"AA[0]", expr.AsBool(), "bool"}, {"B ? I64 : X", expr.AsInt64(), "int64"}, {"I64 + X", expr.AsInt64(), "int64"},
+		{"B ? F : X", expr.AsFloat64(), "float64"}, {"F + X", expr.AsFloat64(), "float64"},
 	} {
 		famOrder++
 		ops := []expr.Option{expr.Env(henv.Env{})}
@@ -455,6 +459,7 @@ func c03(r *report.Run) {
 		for _, b := range []bool{true, false} {
 			env := henv.MakeFull(henv.Val{})
 			env.B = b
+			env.X = 1.5 // the dynamic member holds a float: an int64 result needs the cast
 			out, rerr := c16Run(p, *env)
 			if rerr != nil {
 				continue // a nil under a numeric directive fails: a value-dependent failure
@@ -469,6 +474,16 @@ func c03(r *report.Run) {
 			}
 		}
 		// and the reference evaluator decides whether a failure is a type-reason failure
+	}
+	// the short conditional needs a boolean left operand like the long one
+	for _, src := range []string{"I ?: 5", `S ?: "a"`, "O ?: P", "[I ?: 1]", "Id(I ?: 2)", "B ? (F ?: 1.5) : 2.5", "all(A, {# ?: 1})", "A ?: A"} {
+		famOrder++
+		for _, opt := range []bool{true, false} {
+			if _, err := c16Compile(src, expr.Env(henv.Env{}), expr.Optimize(opt)); err == nil {
+				r.Report(report.Violation{Sub: "rejection", Kind: "ill-typed-accepted", Witness: "non-boolean-condition in the short conditional: " + src, Order: famOrder, Detail: map[string]interface{}{"source": src, "optimize": opt}})
+				break
+			}
+		}
 	}
 	for _, src := range []string{"PtrOnly()", "PtrOnly() + I", "T1() and PtrOnly() > 0"} {
 		famOrder++
